@@ -287,6 +287,11 @@ def cases(rng, tier):
     for ver in (4, 6):
         w = gens.W[ver]
         yield ("c05_cidr_merge", [[["n", ver, 0, 0]]], "merge_edge")
+        # the two extreme prefixes in every textual notation (netmask text of /0 is all zeros, of /width all ones)
+        for f in (1, 3):
+            yield ("c05_cidr_merge_forms", [[["n", ver, 0, 0]], [f]], "merge_edge_forms")
+            yield ("c05_cidr_merge_forms", [[["n", ver, 5, 0], ["n", ver, 2 ** w - 1, w]], [f, f]], "merge_edge_forms")
+            yield ("c05_cidr_merge_forms", [[["n", ver, 2 ** w - 2, w], ["n", ver, 2 ** w - 1, w]], [f, 3]], "merge_edge_forms")
         yield ("c05_cidr_merge", [[["n", ver, 0, 1], ["n", ver, 2 ** (w - 1), 1]]], "merge_edge")
         yield ("c05_cidr_merge", [[["r", ver, 0, 2 ** w - 1], ["n", ver, 5, w]]], "merge_edge")
 
